@@ -37,7 +37,7 @@ fn main() {
                     let n = 2 + rng.below(31);
                     let c = if rng.chance(0.5) { random_position(&mut rng, n) } else { clustered_position(&mut rng, 4 + n / 2) };
                     let gold = rng.chance(0.5);
-                    let mn = 1 + rng.below(60);
+                    let mn = start_move_number(&mut rng);
                     if g.reset_parsed(&c, gold, mn, "random") {
                         let pol = [Policy::Random, Policy::Contact, Policy::Capture][round % 3];
                         play(&mut g, &mut rng, pol, 40, 0.08);
@@ -47,7 +47,8 @@ fn main() {
                     let k = 6 + rng.below(14);
                     let c = clustered_position(&mut rng, k);
                     let gold = rng.chance(0.5);
-                    if g.reset_parsed(&c, gold, 2 + rng.below(30), "clustered") {
+                    let mn = start_move_number(&mut rng);
+                    if g.reset_parsed(&c, gold, mn, "clustered") {
                         let pol = [Policy::Contact, Policy::Capture][round % 2];
                         play(&mut g, &mut rng, pol, 60, 0.05);
                     }
@@ -72,14 +73,16 @@ fn main() {
                 "confined" => {
                     let (c, region) = confined_position(&mut rng);
                     let gold = rng.chance(0.5);
-                    if g.reset_parsed(&c, gold, 2 + rng.below(10), "confined") {
+                    let mn = start_move_number(&mut rng);
+                    if g.reset_parsed(&c, gold, mn, "confined") {
                         play_confined(&mut g, &mut rng, &region, 220, 0.02);
                     }
                 }
                 "shuffle" => {
                     let c = shuffle_position(&mut rng);
                     let gold = rng.chance(0.5);
-                    if g.reset_parsed(&c, gold, 2 + rng.below(10), "shuffle") {
+                    let mn = start_move_number(&mut rng);
+                    if g.reset_parsed(&c, gold, mn, "shuffle") {
                         play(&mut g, &mut rng, Policy::Shuffle, 150, 0.02);
                     }
                 }
